@@ -116,13 +116,23 @@ def compact_class_pairs(
         classes2[i].append(g)
     all_pairs = {}
     for i, class1 in enumerate(subtable.Class1Record):
+        all_zero = True
         for j, class2 in enumerate(class1.Class2Record):
             if is_really_zero(class2):
                 continue
+            all_zero = False
             all_pairs[(tuple(sorted(classes1[i])), tuple(sorted(classes2[j])))] = (
                 getattr(class2, "Value1", None),
                 getattr(class2, "Value2", None),
             )
+        if all_zero and classes1[i]:
+            # A covered first glyph ends the lookup even when its whole row is zero
+            # (it shields the glyph from later subtables): keep it covered.
+            j = min((j for j in classes2 if j and classes2[j]), default=None)
+            if j is not None:
+                all_pairs[
+                    (tuple(sorted(classes1[i])), tuple(sorted(classes2[j])))
+                ] = (None, None)
     grouped_pairs = cluster_pairs_by_class2_coverage_custom_cost(font, all_pairs, level)
     for pairs in grouped_pairs:
         subtables.append(buildPairPosClassesSubtable(pairs, font.getReverseGlyphMap()))
